@@ -215,6 +215,13 @@ def check_frame(col, scratch, kind, elems, ids, label, dask_too=True, deep=True,
                 g2 = a2.cx[:, bx[1]:bx[3]].data.to_pylist()
                 if g1 != g2:
                     viol("cx.omitted_end", f"page_size {ps} box {bx}: cx[:, y0:y1] differs")
+            # every end omitted: "everything" still means every row that HAS an extent
+            for A, R, nm in ((a1, a2, "indexed"), (arr, ref, "plain")):
+                col.count("evaluations")
+                g1 = A.cx[:, :].data.to_pylist()
+                g2 = R.cx[:, :].data.to_pylist()
+                if g1 != g2:
+                    viol(f"cx.all_open.{nm}", f"page_size {ps}: cx[:, :] selects {len(g1)} rows, {len(g2)} without the inert rows")
         except Exception as ex:
             viol("sindex_cx.raises", f"page_size {ps}: {type(ex).__name__}: {str(ex)[:200]}")
     # ---- sjoin
